@@ -464,10 +464,20 @@ Proof.
   - destruct d, d', x; simpl in *; congruence.
 Qed.
 
+Lemma unsat_intent_sat cols ds g : unsat_intent ds = true -> sat_desc cols ds g = false.
+Proof.
+  unfold unsat_intent, sat_desc. induction ds as [|[i d] ds IH]; simpl; [discriminate|].
+  intros H. apply orb_true_iff in H. destruct H as [H|H].
+  - destruct d as [[?|]|[?|]|?]; try discriminate; simpl; destruct (value_at (nth i cols (CAttr [])) g); reflexivity.
+  - rewrite (IH H). apply andb_false_r.
+Qed.
+
 Lemma intent_leb_sat cols ds1 ds2 g : intent_leb ds1 ds2 = true ->
   sat_desc cols ds1 g = true -> sat_desc cols ds2 g = true.
 Proof.
-  unfold intent_leb, sat_desc. revert ds2. induction ds1 as [|[i d] ds1 IH]; intros [|[i' d'] ds2]; simpl;
+  unfold intent_leb. intros H Hs. apply orb_true_iff in H. destruct H as [H|H].
+  { rewrite (unsat_intent_sat cols ds1 g H) in Hs. discriminate. }
+  revert H Hs. unfold sat_desc. revert ds2. induction ds1 as [|[i d] ds1 IH]; intros [|[i' d'] ds2]; simpl;
     intros H1 H2; try discriminate; [reflexivity|].
   apply andb_true_iff in H1. destruct H1 as [H1 H1']. apply andb_true_iff in H1. destruct H1 as [Hi Hd].
   apply Nat.eqb_eq in Hi. subst i'. apply andb_true_iff in H2. destruct H2 as [H2 H2'].
